@@ -270,11 +270,16 @@ def _in(choices, v):
     return any(c == v for c in choices)
 
 
-def match_contour(exp, got, rnd=None, allow_dropped=False, cubic_ok=False, max_run=40):
+def match_contour(exp, got, rnd=None, allow_dropped=False, cubic_ok=False, max_run=40,
+                  accept=None):
     """exp = (start, segs) expected cycle (exact rationals, 'l' | 'Q' | 'c'),
     got = (start, segs, start_explicit) from out_segments.
     Returns None when no alignment exists, else a list of (exp_cubic_segment_start, exp_seg,
-    got_run_start, got_run) for the distance check.  rnd(v) -> tuple of admissible integers."""
+    got_run_start, got_run) for the distance check.  rnd(v) -> tuple of admissible integers.
+    accept(ecur, eseg, gcur, run) -> bool, optional: a run of quadratic segments is taken for a
+    cubic only if it is accepted (used to choose between several structurally possible
+    segmentations, e.g. when an implied on-curve point lies within the slack of the cubic's end
+    point just before the real, explicit one)."""
     rnd = rnd or R.round_choices
     estart, esegs = exp
     gstart, gsegs, gexplicit = got
@@ -309,7 +314,7 @@ def match_contour(exp, got, rnd=None, allow_dropped=False, cubic_ok=False, max_r
             continue
         rot = gsegs[k:] + gsegs[:k]
         res = _match_from(esegs, 0, rot, 0, ends[k], estart, rnd, slack, allow_dropped,
-                          cubic_ok, max_run, [20000])
+                          cubic_ok, max_run, [20000], accept)
         if res is not None:
             return res
     return None
@@ -324,7 +329,7 @@ def _explicit(s):
 
 
 def _match_from(esegs, ei, gsegs, gi, gcur, ecur, rnd, slack, allow_dropped, cubic_ok, max_run,
-                budget):
+                budget, accept=None):
     budget[0] -= 1
     if budget[0] <= 0:
         return None
@@ -334,7 +339,7 @@ def _match_from(esegs, ei, gsegs, gi, gcur, ecur, rnd, slack, allow_dropped, cub
     if e[0] == "l":
         if gi < len(gsegs) and gsegs[gi][0] == "l" and _eq_on(e[1], gsegs[gi][1], True, rnd, 0):
             return _match_from(esegs, ei + 1, gsegs, gi + 1, gsegs[gi][1], e[1], rnd, slack,
-                               allow_dropped, cubic_ok, max_run, budget)
+                               allow_dropped, cubic_ok, max_run, budget, accept)
         return None
     if e[0] == "Q":
         offs = e[1:-1]
@@ -360,14 +365,14 @@ def _match_from(esegs, ei, gsegs, gi, gcur, ecur, rnd, slack, allow_dropped, cub
                     if not allow_dropped or not _eq_on(e[-1], s[2], False, rnd, slack):
                         return None
         return _match_from(esegs, ei + 1, gsegs, gi + k, _end(run[-1]), e[-1], rnd, slack,
-                           allow_dropped, cubic_ok, max_run, budget)
+                           allow_dropped, cubic_ok, max_run, budget, accept)
     # cubic
     if cubic_ok and gi < len(gsegs) and gsegs[gi][0] == "c":
         s = gsegs[gi]
         if (all(_in(rnd(e[j][0]), s[j][0]) and _in(rnd(e[j][1]), s[j][1]) for j in (1, 2)) and
                 _eq_on(e[3], s[3], True, rnd, 0)):
             r = _match_from(esegs, ei + 1, gsegs, gi + 1, s[3], e[3], rnd, slack, allow_dropped,
-                            cubic_ok, max_run, budget)
+                            cubic_ok, max_run, budget, accept)
             if r is not None:
                 return r
     # run of quadratic segments ending at the rounded end point
@@ -376,14 +381,14 @@ def _match_from(esegs, ei, gsegs, gi, gcur, ecur, rnd, slack, allow_dropped, cub
         s = gsegs[j]
         if (s[3] or allow_dropped) and _eq_on(e[3], s[2], s[3], rnd, slack):
             r = _match_from(esegs, ei + 1, gsegs, j + 1, s[2], e[3], rnd, slack, allow_dropped,
-                            cubic_ok, max_run, budget)
-            if r is not None:
+                            cubic_ok, max_run, budget, accept)
+            if r is not None and (accept is None or accept(ecur, e, gcur, gsegs[gi:j + 1])):
                 return [(ecur, e, gcur, gsegs[gi:j + 1])] + r
         j += 1
     # degenerate cubic drawn as a straight line
     if gi < len(gsegs) and gsegs[gi][0] == "l" and _eq_on(e[3], gsegs[gi][1], True, rnd, 0):
         r = _match_from(esegs, ei + 1, gsegs, gi + 1, gsegs[gi][1], e[3], rnd, slack,
-                        allow_dropped, cubic_ok, max_run, budget)
+                        allow_dropped, cubic_ok, max_run, budget, accept)
         if r is not None:
             return [(ecur, e, gcur, gsegs[gi:gi + 1])] + r
     return None
